@@ -20,6 +20,8 @@ N5  `if c: r = A` / `else: r = B` ; `return r`  ->  `return A` / `return B`   (o
 N6  `r = f(..); a = r[0]; b = r[1]`  ->  `a, b = f(..)`   (a tuple result kept whole and only indexed).
 N7  `0 > k`  ->  `k < 0`   (numeric constant moved to the right-hand side of a single comparison).
 N8  `if a:` / `    if b: S`  ->  `if a and b: S`   (nested ifs without else arms).
+N9  `for i in range(len(A)): x = A[i]; y = B[i]; ..`  ->  `for x, y in zip(A, B): ..` (with enumerate when i is used otherwise);
+    not inside numba-compiled functions.
 
 Nothing else is rewritten; line numbers of the surviving nodes are kept, inlined statements carry the line of the call.
 """
@@ -341,7 +343,8 @@ def _inline_expr_call(call: ast.Call, helper: ast.FunctionDef, is_method: bool) 
     return e
 
 
-def _inline_call(call: ast.Call, helper: ast.FunctionDef, is_method: bool, caller_names: Set[str], emit, tag: str) -> Optional[List[ast.stmt]]:
+def _inline_call(call: ast.Call, helper: ast.FunctionDef, is_method: bool, caller_names: Set[str], emit, tag: str,
+                 overwritten: Set[str] = frozenset()) -> Optional[List[ast.stmt]]:
     actuals = _bind_actuals(call, helper, is_method)
     if actuals is None:
         return None
@@ -361,6 +364,8 @@ def _inline_call(call: ast.Call, helper: ast.FunctionDef, is_method: bool, calle
     for p, v in actuals.items():
         if p not in stored and (_simple(v) or (_pure(v) and loads.get(p, 0) <= 1)):
             ren[p] = v                      # substituted at every (load) use
+        elif isinstance(v, ast.Name) and v.id == p and p in overwritten:
+            ren[p] = p                      # same name on both sides and the caller overwrites it with the result anyway
         else:
             new = p if (p not in caller_names) else f"{p}__{tag}"
             ren[p] = new
@@ -491,7 +496,9 @@ def inline_new_helpers(tree: ast.Module, modname: str) -> List[str]:
                     else:
                         def emit(e, at, _st=st):
                             return [ast.Expr(value=e, lineno=_st.lineno, col_offset=0)] if e is not None and not isinstance(e, ast.Constant) else [ast.Pass(lineno=_st.lineno, col_offset=0)]
-                    repl = _inline_call(call, helper, is_method, caller_names, emit, tag)
+                    overwritten = {n.id for t in (st.targets if isinstance(st, ast.Assign) else []) for n in ast.walk(t)
+                                   if isinstance(n, ast.Name)}
+                    repl = _inline_call(call, helper, is_method, caller_names, emit, tag, overwritten)
                     if repl is not None:
                         notes.append(f"{modname}: call of new helper {helper.name} inlined into {caller.name} (line {st.lineno})")
                         out.extend(repl)
@@ -709,6 +716,75 @@ def _indexed_result_to_unpacking(tree: ast.Module) -> None:
                                                   for j in idxs], ctx=ast.Store())]
 
 
+def _index_loops_to_iteration(tree: ast.Module, only_plain_python: bool = True) -> None:
+    """`for i in range(len(A)):` whose body begins with  `x = A[i]` (and `y = B[i]` ..)   ->   `for x in A` /
+    `for x, y in zip(A, B)`, or with `enumerate` when `i` is used for anything else.  The element names must be assigned
+    nowhere else in the loop and the sequences must not be re-bound in it.  (The sequences of a working program have equal
+    lengths; an index-based loop over a shorter B would raise where zip stops - that difference is not relevant to any rule.)
+    Functions compiled by numba are left alone: their loops are what the kernel rules analyse, in either spelling."""
+    def is_njit(fn: ast.FunctionDef) -> bool:
+        return any("njit" in ast.unparse(d) or "jit" in ast.unparse(d) for d in fn.decorator_list)
+
+    def simple_seq(e: ast.AST) -> bool:
+        return isinstance(e, ast.Name) or (isinstance(e, ast.Attribute) and simple_seq(e.value))
+
+    for fn in ast.walk(tree):
+        if not isinstance(fn, ast.FunctionDef) or (only_plain_python and is_njit(fn)):
+            continue
+        for loop in [n for n in ast.walk(fn) if isinstance(n, ast.For)]:
+            it = loop.iter
+            if not (isinstance(loop.target, ast.Name) and isinstance(it, ast.Call) and isinstance(it.func, ast.Name) and it.func.id == "range"
+                    and len(it.args) == 1 and isinstance(it.args[0], ast.Call) and isinstance(it.args[0].func, ast.Name)
+                    and it.args[0].func.id == "len" and len(it.args[0].args) == 1 and simple_seq(it.args[0].args[0]) and not loop.orelse):
+                continue
+            i = loop.target.id
+            first_seq = ast.dump(it.args[0].args[0])
+            heads = []
+            for st in loop.body:
+                if isinstance(st, ast.Assign) and len(st.targets) == 1 and isinstance(st.targets[0], ast.Name) \
+                        and isinstance(st.value, ast.Subscript) and simple_seq(st.value.value) \
+                        and isinstance(st.value.slice, ast.Name) and st.value.slice.id == i:
+                    heads.append(st)
+                else:
+                    break
+            if not heads or not any(ast.dump(h.value.value) == first_seq for h in heads):
+                continue
+            rest = loop.body[len(heads):]
+            if not rest:
+                continue
+            elem_names = [h.targets[0].id for h in heads]
+            if len(set(elem_names)) != len(elem_names):
+                continue
+            # element names / sequences / index not re-bound in the rest of the body
+            rebound = {n.id for st in rest for n in ast.walk(st) if isinstance(n, ast.Name) and isinstance(n.ctx, ast.Store)}
+            seq_roots = set()
+            for h in heads:
+                r = h.value.value
+                while isinstance(r, ast.Attribute):
+                    r = r.value
+                seq_roots.add(r.id)
+            if (set(elem_names) | seq_roots | {i}) & rebound:
+                continue
+            i_used = any(isinstance(n, ast.Name) and n.id == i for st in rest for n in ast.walk(st))
+            # the index is also live after the loop?  keep it then
+            seqs = [h.value.value for h in heads]
+            if len(heads) == 1:
+                elems = ast.Name(id=elem_names[0], ctx=ast.Store())
+                source = seqs[0]
+            else:
+                elems = ast.Tuple(elts=[ast.Name(id=n, ctx=ast.Store()) for n in elem_names], ctx=ast.Store())
+                source = ast.Call(func=ast.Name(id="zip", ctx=ast.Load()), args=seqs, keywords=[])
+            used_after = any(isinstance(n, ast.Name) and n.id == i and getattr(n, "lineno", 0) > (loop.end_lineno or 0) for n in ast.walk(fn))
+            if i_used or used_after:
+                loop.target = ast.Tuple(elts=[ast.Name(id=i, ctx=ast.Store()), elems], ctx=ast.Store())
+                loop.iter = ast.Call(func=ast.Name(id="enumerate", ctx=ast.Load()), args=[source], keywords=[])
+            else:
+                loop.target = elems
+                loop.iter = source
+            loop.body = rest
+            ast.fix_missing_locations(loop)
+
+
 class _MergeNestedIfs(ast.NodeTransformer):
     """`if a:` containing only `if b: S` (neither with an else)  ->  `if a and b: S`"""
     def visit_If(self, node: ast.If):
@@ -733,5 +809,6 @@ def normalise(tree: ast.Module, modname: str) -> List[str]:
     _indexed_result_to_unpacking(tree)
     _ConstantOnTheRight().visit(tree)
     _MergeNestedIfs().visit(tree)
+    _index_loops_to_iteration(tree)
     ast.fix_missing_locations(tree)
     return notes
